@@ -21,6 +21,7 @@ use std::time::Instant;
 
 pub mod canary;
 pub mod netsim;
+pub mod pktgen;
 pub mod refmodel;
 
 // ---------------------------------------------------------------- PRNG
